@@ -90,6 +90,8 @@ class SqueethAdapter:
         self.ua = uni_adapter
         self.sdata = sdata
         self.ctx = None
+        # the pool adapter asks here which of its positions are held as vault collateral (and are therefore valued in the vault, not in the pool)
+        uni_adapter.holders = [lambda: [v.uni_nft_id for v in self.market.vault.values() if v.uni_nft_id is not None]]
 
     def raw(self):
         return {"vaults": {str(k.id): {"collateral": v.collateral_amount, "short": v.osqth_short_amount,
@@ -140,8 +142,15 @@ class SqueethAdapter:
         eth_p = F(r["WETH"])
         mark = F(r["OSQTH"]) * eth_p
         total = Fraction(0)
+        counted = set()
         for v in self.market.vault.values():
             total += self.effective_collateral(v) * eth_p - F(v.osqth_short_amount) * mark
+            if v.uni_nft_id is not None:
+                # every holding is worth what it is worth ONCE: an LP position that a second vault claims as well is not there twice
+                if v.uni_nft_id in counted:
+                    weth, osq = self.lp_amounts(v.uni_nft_id)
+                    total -= (weth + osq * self.index_price_in_eth()) * eth_p
+                counted.add(v.uni_nft_id)
         return total
 
     # operations --------------------------------------------------------------------------------------------
@@ -174,7 +183,8 @@ class SqueethAdapter:
                     for pname, pos in [("nolp", None)] + [("lp", p) for p in free_pos]:
                         default = (ecls, mcls, pname) == ("one", "half", "nolp") and tname in ("new", "v0")
                         if not default and sum(x != y for x, y in zip((ecls, mcls, pname), ("one", "half", "nolp"))) > 1 \
-                                and (ecls, mcls) not in (("0.49", "near"), ("over", "beyond"), ("0", "near")):
+                                and (ecls, mcls) not in (("0.49", "near"), ("over", "beyond"), ("0", "near")) \
+                                and (ecls, mcls, pname) not in (("one", "beyond", "lp"), ("0", "beyond", "lp")):  # an LP position handed in by a mint that is refused
                             continue
                         if tname == "unknown" and not (ecls, mcls, pname) == ("one", "half", "nolp"):
                             continue
@@ -206,6 +216,11 @@ class SqueethAdapter:
             if m.vault[vk].uni_nft_id is not None:
                 out.append(Op(f"{n}.withdraw_lp[v{i}]", lambda c, vk=vk: m.withdraw_uni_position(vk, m.vault[vk].uni_nft_id), False,
                               f"{n}.withdraw_uni_position", {"revalues": True}))
+            # a position that is ALREADY collateral of a vault can not be pledged a second time
+            for p in [k for k, pp in sorted(um._positions.items()) if pp.transferred and pp.liquidity > 0][:1]:
+                if m.vault[vk].uni_nft_id is None:
+                    out.append(Op(f"{n}.deposit_lp[v{i},already-lent]", lambda c, vk=vk, p=p: m.deposit_uni_position(vk, p), True, f"{n}.deposit_uni_position",
+                                  {"revalues": True}))
             out.append(Op(f"{n}.withdraw_lp[v{i},wrong]", lambda c, vk=vk: m.withdraw_uni_position(vk, PositionInfo(-60, 60)), True,
                           f"{n}.withdraw_uni_position"))
             out.append(Op(f"{n}.deposit_lp[v{i},unknown]", lambda c, vk=vk: m.deposit_uni_position(vk, PositionInfo(-60, 60)), True,
